@@ -7,9 +7,12 @@
 (* the specification (known_findings.json); the trace specification only   *)
 (* reports which deviation set explains an observation.                    *)
 (***************************************************************************)
-EXTENDS X690
+EXTENDS X691
 
 DerDevs == <<"DevDerSetNotSorted", "DevDerSetOfNotSorted", "DevDerNamedBitsNotTrimmed", "DevTagOnTaggedChoiceRefExplicit", "DevDefaultNullEncoded">>
+
+PerDevs == <<"DevPerSemiConstrainedAsUnconstrained", "DevPerChoiceIndexTextualOrder", "DevPerStringAlignIfMaxGt1",
+             "DevPerUniversalStringSizeIgnored", "DevPerEmptyOutermost", "DevDefaultNullEncoded">>
 
 \* candidate deviation sets, smallest first: singletons, pairs, everything
 DevCandidates(devs) ==
@@ -37,7 +40,8 @@ Leaves(env, T, v) ==
 AnyLeaf(env, T, v, P(_, _)) ==
   LET ls == Leaves(env, T, v) IN \E j \in 1..Len(ls) : P(ls[j][1], ls[j][2])
 
-RtClasses == <<"OidArc2Ge40", "RealMinusZero", "NamedBitsTrimmedBelowSize", "AbsentOptionalExtensibleChoice">>
+RtClasses == <<"OidArc2Ge40", "RealMinusZero", "NamedBitsTrimmedBelowSize", "AbsentOptionalExtensibleChoice",
+              "PerSizeExtensionOutsideRoot", "GroupOnlyNullPresent">>
 
 RECURSIVE AnyNode(_, _, _, _)
 \* does P hold at some SEQUENCE/SET node <<type, value>> inside v : T ?
@@ -58,6 +62,22 @@ RtClassHolds(name, env, T, v, codec) ==
     [] name = "NamedBitsTrimmedBelowSize" ->
          /\ codec = "der"
          /\ AnyLeaf(env, T, v, LAMBDA t, x : t.k = "BITS" /\ t.nb # <<>> /\ t.sz.f = "R" /\ TrimBits(x).n < t.sz.lb)
+    [] name = "PerSizeExtensionOutsideRoot" ->
+         /\ codec \in {"per", "uper"}
+         /\ AnyLeaf(env, T, v, LAMBDA t, x :
+               /\ t.k \in {"STR", "BITS", "OCTS"}
+               /\ t.sz.f = "R" /\ t.sz.ext
+               /\ LET n == IF t.k = "BITS" THEN x.n ELSE Len(x) IN ~SizeInRoot(t.sz, n))
+    [] name = "GroupOnlyNullPresent" ->
+         /\ codec \in {"per", "uper", "oer"}
+         /\ LET ns == SeqNodes(env, T, v) IN
+              \E j \in 1..Len(ns) :
+                 LET Sq == ns[j][1]  x == ns[j][2] IN
+                 \E a \in 1..Len(Sq.adds) :
+                    /\ Sq.adds[a].g
+                    /\ \E h \in 1..Len(Sq.adds[a].ms) : x[Sq.adds[a].ms[h].n].p
+                    /\ \A h \in 1..Len(Sq.adds[a].ms) :
+                          x[Sq.adds[a].ms[h].n].p => Base(env, Sq.adds[a].ms[h].t).k = "NULL"
     [] name = "AbsentOptionalExtensibleChoice" ->
          /\ codec \in {"ber", "der"}
          /\ LET ns == SeqNodes(env, T, v) IN
